@@ -7,18 +7,23 @@ use emulator_2a_lib::parser::{AsmParser, Programsize, Stacksize};
 use mc::{Ctx, Json};
 use std::collections::BTreeMap;
 
-const P1: &str = "#! mrasm\n LDSP 0xEF\n LD R0, 0x5A\n ST (0x80), R0\n ST (0xFE), R0\n ST (0xFF), R0\n ST (0xF0), R0\n LD R1, 0x21\n ST (0xF1), R1\n LD R1, 0x87\n ST (0xF2), R1\n LD R1, 0x05\n ST (0xF2), R1\n LD R1, 0xEC\n ST (0xF2), R1\n LD R1, 0x01\n ST (0xF9), R1\n ST (0xFC), R0\n LD R1, 0x9B\n ST (0xFD), R1\n ST (0xFB), R0\n EI\nLOOP:\n INC R2\n PUSH R2\n JR LOOP\n";
+const P1: &str = "#! mrasm\n LDSP 0xEF\n LD R0, 0x5A\n ST (0x80), R0\n ST (0xFE), R0\n ST (0xFF), R0\n ST (0xF0), R0\n LD R1, 0x21\n ST (0xF1), R1\n LD R1, 0x87\n ST (0xF2), R1\n LD R1, 0x05\n ST (0xF2), R1\n LD R1, 0xE7\n ST (0xF2), R1\n LD R1, 0x3F\n ST (0xF9), R1\n ST (0xFC), R0\n LD R1, 0x9B\n ST (0xFD), R1\n ST (0xFB), R0\n EI\nLOOP:\n INC R2\n PUSH R2\n JR LOOP\n";
 const P2: &str = "#! mrasm\n*STACKSIZE 48\n*PROGRAMSIZE 200\n JR MAIN\n PUSH R0\n LD R0, (0x90)\n INC R0\n ST (0x90), R0\n POP R0\n RETI\nMAIN:\n LDSP 0xE0\n BITS (0xF9), 1\n EI\n LD R0, 0x33\n ST (0xFF), R0\n ST (0xF1), R0\n LD R1, 0xC6\n ST (0xF2), R1\n ST (0xA0), R1\n STOP\n LD R2, 0x77\n ST (0xFE), R2\nEND:\n JR END\n";
 /// no interrupts, no writes to registers without read-back (UART, timer)
 const P3: &str = "#! mrasm\n*STACKSIZE 0\n LDSP 0x70\n LD R0, 0xC3\n ST (0x10), R0\n ST (0xFE), R0\n ST (0xF0), R0\n LD R1, 0x82\n ST (0xF2), R1\n MUL R0, R1\n PUSH R0\n CALL SUB\nL:\n DEC R2\n JR L\nSUB:\n ST (0xFF), R2\n RET\n";
 
-const FOLLOW: [&str; 6] = [
+/// leaves the limits alone (NOSET): the next load must still wipe the RAM and apply its own limits
+const P4: &str = "#! mrasm\n*PROGRAMSIZE NOSET\n*STACKSIZE NOSET\n LD R0, 0x99\n ST (0x60), R0\n ST (0xFE), R0\n .ORG 0x50\n .DB 1, 2, 3, 4\nL:\n JR L\n";
+
+const FOLLOW: [&str; 7] = [
     "#! mrasm\nL:\n LD R0, (0xFC)\n LD R1, (0xFD)\n ADD R0, R1\n ST (0xFF), R0\n INC R2\n ST (0xFE), R2\n JR L\n",
     "#! mrasm\nF:\n PUSH R0\n CALL F\n",
     "#! mrasm\n*STACKSIZE 0\n LDSP 0xEF\n LD R0, 13\n LD R1, 11\nL:\n MUL R0, R1\n ST (0x80), R0\n DIV R0, R1\n PUSHF\n POP R2\n ST (0x81), R2\n INC R1\n JR L\n",
     "#! mrasm\n*STACKSIZE 32\n*PROGRAMSIZE 6\n LDSP 0xD0\n NOP\n NOP\n NOP\n NOP\n NOP\n NOP\n",
     "#! mrasm\n LD R0, 1\n ST (0xFF), R0\n STOP\n LD R0, 2\n ST (0xFF), R0\nE:\n JR E\n",
     "#! mrasm\n*STACKSIZE 0\n LD R0, 0x44\n ST (PATCH), R0\nPATCH:\n NOP\n ST (0xFE), R2\n LD R1, (0xFE)\n LD R3, 0\n",
+    // interrupts enabled by the CPU flag alone: nothing may be pending from an earlier life
+    "#! mrasm\n JR M\n INC R1\n ST (0xFE), R1\n RETI\nM:\n LDSP 0xEF\n EI\nL:\n INC R0\n ST (0xFF), R0\n JR L\n",
 ];
 
 fn compile(src: &str) -> ByteCode {
@@ -42,13 +47,13 @@ pub enum Ev {
     Uio1,
 }
 
-pub const EVS: [Ev; 17] = [
-    Ev::Load(1), Ev::Load(2), Ev::Load(3), Ev::Edges(1), Ev::Edges(7), Ev::Edges(40), Ev::Edges(250), Ev::ToggleStep, Ev::Interrupt, Ev::Continue, Ev::CpuReset, Ev::MasterReset,
+pub const EVS: [Ev; 18] = [
+    Ev::Load(1), Ev::Load(2), Ev::Load(3), Ev::Load(4), Ev::Edges(1), Ev::Edges(7), Ev::Edges(40), Ev::Edges(250), Ev::ToggleStep, Ev::Interrupt, Ev::Continue, Ev::CpuReset, Ev::MasterReset,
     Ev::InputFc, Ev::Di1, Ev::Temp, Ev::Ai1, Ev::J1,
 ];
 
 struct Progs {
-    p: [ByteCode; 3],
+    p: [ByteCode; 4],
     follow: Vec<ByteCode>,
 }
 
@@ -95,6 +100,9 @@ fn digest(m: &Machine) -> u64 {
     v.push((m.verif_micro_addr() >> 8) as u8);
     v.push(m.verif_ir());
     v.push(m.verif_last_bus_read());
+    // derived Debug of the whole machine: every field of RawMachine, also ones added later (the bus
+    // prints only its RAM there, its registers are covered by the reads above)
+    v.extend_from_slice(format!("{:?}", m).as_bytes());
     mc::fnv(&v)
 }
 
@@ -225,6 +233,33 @@ fn check_node(n: &Node, pr: &Progs) -> Vec<(String, String, String)> {
         u.cpu_reset();
         if u.bus() != r.bus() {
             bad.push(("cpu-reset/keeps-ucr".into(), "a UART control write (0xFB) made before cpu_reset is still visible after it".into(), "CpuReset".into()));
+        }
+        // every field of the CPU side (also ones added later) after a reset, in EVERY history: a new
+        // machine that is handed this machine's bus after Bus::cpu_reset (the bus's own reset is judged
+        // by the differentials above and the getters), limits and step mode copied
+        {
+            let mut e = Machine::new(MachineConfig::default());
+            let mut bus = m.bus().clone();
+            bus.cpu_reset();
+            *e.raw_mut().bus_mut() = bus;
+            e.raw_mut().set_stacksize(m.stacksize());
+            e.raw_mut().set_programsize(m.programsize());
+            e.set_step_mode(m.step_mode());
+            if e != r {
+                bad.push(("cpu-reset/cpu-side-not-power-on".into(), format!("after cpu_reset the machine differs (derived PartialEq over every field) from a new machine holding the same bus, limits and step mode; Debug of the CPU side: {}", format!("{:?}", r).chars().take(400).collect::<String>()), "CpuReset".into()));
+            }
+            let mut e = Machine::new(MachineConfig::default());
+            let mut bus = m.bus().clone();
+            bus.master_reset();
+            *e.raw_mut().bus_mut() = bus;
+            e.raw_mut().set_stacksize(m.stacksize());
+            e.raw_mut().set_programsize(m.programsize());
+            e.set_step_mode(m.step_mode());
+            let mut r2 = m.clone();
+            r2.master_reset();
+            if e != r2 {
+                bad.push(("master-reset/cpu-side-not-power-on".into(), "after master_reset the machine differs (derived PartialEq over every field) from a new machine holding the same bus after Bus::master_reset, limits and step mode".into(), "MasterReset".into()));
+            }
         }
         // complete private-field comparison for clean histories: rebuild the expected machine
         // from public setters only
@@ -384,7 +419,7 @@ fn check_node(n: &Node, pr: &Progs) -> Vec<(String, String, String)> {
 
 pub fn run() {
     let mut ctx = Ctx::from_args("model_checking");
-    let pr = Progs { p: [compile(P1), compile(P2), compile(P3)], follow: FOLLOW.iter().map(|s| compile(s)).collect() };
+    let pr = Progs { p: [compile(P1), compile(P2), compile(P3), compile(P4)], follow: FOLLOW.iter().map(|s| compile(s)).collect() };
     if let Some(f) = ctx.replay_file.clone() {
         let text = std::fs::read_to_string(&f).expect("replay file");
         let kv = mc::kv(text.lines().next().unwrap_or(""));
@@ -393,7 +428,7 @@ pub fn run() {
         let mut clean = true;
         for e in &hist {
             apply(&mut m, *e, &pr);
-            if matches!(e, Ev::Interrupt | Ev::Load(1) | Ev::Load(2)) {
+            if matches!(e, Ev::Interrupt | Ev::Load(1) | Ev::Load(2) | Ev::Load(4)) {
                 clean = false;
             }
         }
@@ -450,7 +485,7 @@ pub fn run() {
                         let mut c = n.clone();
                         c.hist.push(*e);
                         mc::watch::progress(|| hist_line(&c.hist, "none"));
-                        if matches!(e, Ev::Interrupt | Ev::Load(1) | Ev::Load(2)) {
+                        if matches!(e, Ev::Interrupt | Ev::Load(1) | Ev::Load(2) | Ev::Load(4)) {
                             c.clean = false;
                         }
                         match mc::catch(|| apply(&mut c.m, *e, &pr)) {
